@@ -123,8 +123,10 @@ func (c *Channel) Close() error {
 
 	// Drain any pending requests.
 	go func() { c.wg.Wait(); close(c.rsp) }()
-	for range c.rsp {
-		// discard
+	for r := range c.rsp {
+		if r.rsp != nil {
+			r.rsp.Body.Close() // discarded undelivered
+		}
 	}
 	return nil
 }
